@@ -1,0 +1,93 @@
+//go:build verif
+
+package chi
+
+// Contracts for govc (the VC generator under /verif). Comment-only: this file compiles to nothing
+// with or without the "verif" build tag. Every line starting with //@ is contract text.
+//
+// Assumed contracts of the container and of the web framework as seen from the middleware (C16). Handlers, middlewares
+// and error handlers are arbitrary user code: they may panic and may call back into the container.
+//@ field Config.ErrorHandler immutable
+//@ field Config.CloseErrorHandler immutable
+//@ field Config.Middlewares immutable
+//@ field HandlerConfig.PanicRecovery immutable
+//@ field HandlerConfig.PanicHandler immutable
+//@ field HandlerConfig.ScopeErrorHandler immutable
+//@ field HandlerConfig.ResolutionErrorHandler immutable
+//@ func godi.Provider.CreateScope
+//@   nocheck
+//@   interferes
+//@   ensures value_xor_error: (result1 == nil) <==> (result0 != nil)
+//@ func godi.Scope.Close
+//@   nocheck
+//@   interferes
+//@ func godi.Scope.Context
+//@   nocheck
+//@   pure
+//@ func http.Request.Context
+//@   nocheck
+//@   pure
+//@ func http.Request.WithContext
+//@   nocheck
+//@   pure
+//@   ensures carries_context: result != nil && pure("http.Request.Context", result) == ctx
+//@ func godi.FromContext
+//@   nocheck
+//@   nopanic
+//@   ensures value_xor_error: (result1 == nil) <==> (result0 != nil)
+//@ func godi.Resolve
+//@   nocheck
+//@   interferes
+//@   nopanic
+//@ func http.Handler.ServeHTTP
+//@   nocheck
+//@   interferes
+//
+//@ func ScopeMiddleware$1$1
+//@   safety[C16]
+//@   requires captured: provider != nil && cfg != nil && next != nil && r != nil
+//@   requires handlers_set: cfg.ErrorHandler != nil && cfg.CloseErrorHandler != nil
+//@   requires middlewares_nonnil: forall i int :: 0 <= i && i < len(cfg.Middlewares) ==> cfg.Middlewares[i] != nil
+//@   ghost mws []func(godi.Scope, *http.Request) error
+//@   at before loop 1 : ghost mws := cfg.Middlewares
+//@   let req0 = r
+//@   ensures[C16] one_scope_per_request: ncalls("godi.Provider.CreateScope") == 1 && callarg("godi.Provider.CreateScope", 0, 0) == provider
+//@        && callarg("godi.Provider.CreateScope", 0, 1) == pure("http.Request.Context", req0)
+//@   ensures[C16] creation_failure_runs_error_handler_only: callret("godi.Provider.CreateScope", 0, 1) != nil ==> ncalls("field:Config.ErrorHandler") == 1
+//@        && callarg("field:Config.ErrorHandler", 0, 3) == callret("godi.Provider.CreateScope", 0, 1)
+//@        && ncalls("http.Handler.ServeHTTP") == 0 && ncalls("fnvar:mw") == 0 && ncalls("godi.Scope.Close") == 0
+//@   ensures[C16] scope_closed_exactly_once: callret("godi.Provider.CreateScope", 0, 1) == nil ==> ncalls("godi.Scope.Close") == 1 && callarg("godi.Scope.Close", 0, 0) == callret("godi.Provider.CreateScope", 0, 0)
+//@   panics[C16] scope_closed_exactly_once_on_panic: ncalls("godi.Provider.CreateScope") == 1 && (!callpanicked("godi.Provider.CreateScope", 0) && callret("godi.Provider.CreateScope", 0, 1) == nil ==>
+//@        ncalls("godi.Scope.Close") == 1 && callarg("godi.Scope.Close", 0, 0) == callret("godi.Provider.CreateScope", 0, 0))
+//@   ensures[C16] close_after_the_handler_chain: forall a int :: (0 <= a && a < ncalls("fnvar:mw") ==> calltime("fnvar:mw", a) < calltime("godi.Scope.Close", 0))
+//@        && (0 <= a && a < ncalls("http.Handler.ServeHTTP") ==> calltime("http.Handler.ServeHTTP", a) < calltime("godi.Scope.Close", 0))
+//@   ensures[C16] middlewares_in_order_with_this_scope: forall c int :: 0 <= c && c < ncalls("fnvar:mw") ==> c < len(mws) && callarg("fnvar:mw", c, 0) == mws[c]
+//@        && callarg("fnvar:mw", c, 1) == callret("godi.Provider.CreateScope", 0, 0)
+//@   ensures[C16] middleware_error_stops_the_request: forall c int :: 0 <= c && c < ncalls("fnvar:mw") && callret("fnvar:mw", c, 0) != nil ==> c == ncalls("fnvar:mw") - 1
+//@        && ncalls("http.Handler.ServeHTTP") == 0 && ncalls("field:Config.ErrorHandler") == 1 && callarg("field:Config.ErrorHandler", 0, 3) == callret("fnvar:mw", c, 0)
+//@   ensures[C16] handler_runs_once_after_all_middlewares: callret("godi.Provider.CreateScope", 0, 1) == nil && (forall c int :: 0 <= c && c < ncalls("fnvar:mw") ==> callret("fnvar:mw", c, 0) == nil) ==>
+//@        ncalls("fnvar:mw") == len(mws) && ncalls("http.Handler.ServeHTTP") == 1 && ncalls("field:Config.ErrorHandler") == 0 && callarg("http.Handler.ServeHTTP", 0, 0) == next && pure("http.Request.Context", callarg("http.Handler.ServeHTTP", 0, 2, "*http.Request")) == pure("godi.Scope.Context", callret("godi.Provider.CreateScope", 0, 0, "godi.Scope"))
+//@   ensures[C16] scope_attached_before_user_code: forall c int :: 0 <= c && c < ncalls("fnvar:mw") ==> pure("http.Request.Context", callarg("fnvar:mw", c, 2, "*http.Request")) == pure("godi.Scope.Context", callret("godi.Provider.CreateScope", 0, 0, "godi.Scope"))
+//@   ensures[C16] close_error_reported: ncalls("field:Config.CloseErrorHandler") <= 1 && (ncalls("field:Config.CloseErrorHandler") == 1 ==> callarg("field:Config.CloseErrorHandler", 0, 1) == callret("godi.Scope.Close", 0, 0) && callret("godi.Scope.Close", 0, 0) != nil)
+//@   loop 1
+//@     invariant progress: ncalls("fnvar:mw") == idx && ncalls("http.Handler.ServeHTTP") == 0 && ncalls("field:Config.ErrorHandler") == 0 && ncalls("godi.Scope.Close") == 0
+//@        && ncalls("godi.Provider.CreateScope") == 1 && callret("godi.Provider.CreateScope", 0, 1) == nil && scope == callret("godi.Provider.CreateScope", 0, 0) && ncalls("field:Config.CloseErrorHandler") == 0
+//@        && pure("http.Request.Context", r) == pure("godi.Scope.Context", scope) && (forall c int :: 0 <= c && c < idx ==> pure("http.Request.Context", callarg("fnvar:mw", c, 2, "*http.Request")) == pure("godi.Scope.Context", scope))
+//@     invariant in_order: forall c int :: 0 <= c && c < idx ==> callarg("fnvar:mw", c, 0) == mws[c] && callarg("fnvar:mw", c, 1) == scope && callret("fnvar:mw", c, 0) == nil
+//
+//@ func Handle$1
+//@   safety[C16]
+//@   requires captured: cfg != nil && method != nil && r != nil
+//@   requires handlers_set: cfg.PanicHandler != nil && cfg.ScopeErrorHandler != nil && cfg.ResolutionErrorHandler != nil
+//@   let recovery = cfg.PanicRecovery
+//@   ensures[C16] scope_from_request_context: ncalls("godi.FromContext") == 1 && callarg("godi.FromContext", 0, 0) == pure("http.Request.Context", r)
+//@   ensures[C16] no_scope_runs_scope_error_handler_only: callret("godi.FromContext", 0, 1) != nil ==> ncalls("field:HandlerConfig.ScopeErrorHandler") == 1
+//@        && callarg("field:HandlerConfig.ScopeErrorHandler", 0, 3) == callret("godi.FromContext", 0, 1) && ncalls("godi.Resolve") == 0 && ncalls("fnvar:method") == 0 && ncalls("field:HandlerConfig.ResolutionErrorHandler") == 0
+//@   ensures[C16] resolves_from_the_request_scope: callret("godi.FromContext", 0, 1) == nil ==> ncalls("godi.Resolve") == 1 && callarg("godi.Resolve", 0, 0) == callret("godi.FromContext", 0, 0) && ncalls("field:HandlerConfig.ScopeErrorHandler") == 0
+//@   ensures[C16] resolution_failure_runs_resolution_error_handler_only: ncalls("godi.Resolve") == 1 && callret("godi.Resolve", 0, 1) != nil ==> ncalls("field:HandlerConfig.ResolutionErrorHandler") == 1
+//@        && callarg("field:HandlerConfig.ResolutionErrorHandler", 0, 3) == callret("godi.Resolve", 0, 1) && ncalls("fnvar:method") == 0
+//@   ensures[C16] method_only_after_resolving_the_controller: ncalls("fnvar:method") <= 1 && (ncalls("fnvar:method") == 1 ==> ncalls("godi.Resolve") == 1 && callret("godi.Resolve", 0, 1) == nil
+//@        && callarg("fnvar:method", 0, 0) == method && callarg("fnvar:method", 0, 1) == callret("godi.Resolve", 0, 0) && ncalls("field:HandlerConfig.ResolutionErrorHandler") == 0)
+//@   ensures[C16] resolved_controller_is_used: ncalls("godi.Resolve") == 1 && callret("godi.Resolve", 0, 1) == nil && !(recovery && ncalls("field:HandlerConfig.PanicHandler") == 1) ==> ncalls("fnvar:method") == 1
+//@   ensures[C16] panic_handler_only_when_enabled: ncalls("field:HandlerConfig.PanicHandler") <= 1 && (ncalls("field:HandlerConfig.PanicHandler") == 1 ==> recovery)
+//@   panics[C16] panics_pass_through_only_when_recovery_is_off: !recovery || ncalls("field:HandlerConfig.PanicHandler") == 1
